@@ -151,6 +151,30 @@ class FuncScan(ast.NodeVisitor):
                 self.report('convert', node)
 
 
+NONDET_CALLS = {'id', 'hash', 'object.__repr__', 'getpid', 'urandom', 'time', 'monotonic', 'perf_counter', 'now', 'today', 'uuid4', 'uuid1', 'random',
+                'randint', 'choice', 'shuffle', 'sample', 'mkstemp', 'mkdtemp', 'gettempdir', 'getenv', 'getcwd', 'listdir', 'scandir', 'iglob', 'glob'}
+NONDET_MODULES = {'random', 'time', 'uuid', 'secrets', 'datetime', 'tempfile'}
+
+
+def scan_sources(rel, tree, src, sites):
+    """Other sources of run-to-run variation than set order: object addresses and hashes, clocks, randomness, the environment.
+    Every use is a site that must be on the allowlist with its justification (e.g. the address inside a repr is excepted by C17)."""
+    for node in ast.walk(tree):
+        if isinstance(node, (ast.Import, ast.ImportFrom)):
+            names = [a.name.split('.')[0] for a in node.names] if isinstance(node, ast.Import) else [(node.module or '').split('.')[0]]
+            for nm in names:
+                if nm in NONDET_MODULES:
+                    sites.append(Site(rel, '<module>', 'nondet-import', node, src))
+        if isinstance(node, ast.Call):
+            f = node.func
+            nm = f.id if isinstance(f, ast.Name) else (f.attr if isinstance(f, ast.Attribute) else None)
+            if nm in NONDET_CALLS and not (isinstance(f, ast.Attribute) and nm in ('time', 'random', 'choice', 'sample', 'now', 'today', 'glob')
+                                           and not isinstance(f.value, ast.Name)):
+                sites.append(Site(rel, '<call>', 'nondet-source', node, src))
+        if isinstance(node, ast.Attribute) and node.attr == 'environ':
+            sites.append(Site(rel, '<attr>', 'nondet-source', node, src))
+
+
 def scan_repo(repo):
     sites = []
     files = []
@@ -179,6 +203,7 @@ def scan_repo(repo):
         # module level statements as pseudo function
         mod = ast.Module(body=[s for s in tree.body if not isinstance(s, (ast.FunctionDef, ast.ClassDef))], type_ignores=[])
         FuncScan(rel, '<module>', mod, src, sites).scan()
+        scan_sources(rel, tree, src, sites)
     return sites, len(files)
 
 
